@@ -32,13 +32,17 @@ func MergeRecursive(_ context.Context, args ...core.Value) (core.Value, error) {
 	return merged.Clone(), nil
 }
 
+// merge stores the members of dst into src and returns src. src is always
+// an object created by MergeRecursive itself: whatever is taken from dst is
+// cloned, so that no argument (nor anything reachable from one) is ever
+// written to or becomes part of the result.
 func merge(src, dst core.Value) core.Value {
 	if src.Type() != dst.Type() {
-		return dst
+		return cloneValue(dst)
 	}
 
 	if src.Type() != types.Object {
-		return dst
+		return cloneValue(dst)
 	}
 
 	srcObj := src.(*values.Object)
@@ -57,6 +61,8 @@ func merge(src, dst core.Value) core.Value {
 
 		if srcVal, exists = srcObj.Get(keyObj); exists {
 			val = merge(srcVal, val)
+		} else {
+			val = cloneValue(val)
 		}
 
 		srcObj.Set(keyObj, val)
@@ -64,4 +70,12 @@ func merge(src, dst core.Value) core.Value {
 	})
 
 	return src
+}
+
+func cloneValue(val core.Value) core.Value {
+	if cloneable, ok := val.(core.Cloneable); ok {
+		return cloneable.Clone()
+	}
+
+	return val
 }
